@@ -169,15 +169,23 @@ Proof. exact sanitize_px1_spec. Qed.
 Print Assumptions C05_sanitize_pixels_reflect.
 
 (** 7. `cooler cload pairs`: the stored pixels are aggregate_records of the per-record outputs of the whole input,
-    however the reader cuts the file into chunks; the command fails iff some record is an error on its own *)
+    however the reader cuts the file into chunks; the command fails iff some record is an error on its own.
+    (The merge never emits a pixel whose bin1_id is >= nbins; such a bin id only arises from finding D2, and
+    nothing is cut off when every retained record has its bin1 inside the table.) *)
 Theorem C05_cload_pairs_spec : forall blocks zero_based ta chunks,
   cload_pairs blocks zero_based ta chunks =
   match collect (map (sanitize1 blocks (negb zero_based) true ta) (concat chunks)) with
   | None => None
-  | Some recs => Some (aggregate_records recs)
+  | Some recs => Some (filter (fun p => row p <? zlen (table blocks)) (aggregate_records recs))
   end.
 Proof. exact cload_pairs_spec. Qed.
 Print Assumptions C05_cload_pairs_spec.
+
+Theorem C05_cload_pairs_nothing_cut : forall n recs,
+  (forall o, In o recs -> ob1 o < n) ->
+  filter (fun p => row p <? n) (aggregate_records recs) = aggregate_records recs.
+Proof. exact aggregate_records_inrange. Qed.
+Print Assumptions C05_cload_pairs_nothing_cut.
 
 (** non-vacuity: a variable-width table with a longer last bin, records on bin edges, a lower-triangle
     record, an unknown chromosome, one-based input *)
